@@ -137,3 +137,17 @@ func writesMemory(fn *ssa.Function) bool {
 	}
 	return false
 }
+
+// sortedDeclLoops returns the loops with declared frames in ordinal order.
+func (f *frame) sortedDeclLoops() []*loopInfo {
+	var ls []*loopInfo
+	for li := range f.declFrames {
+		ls = append(ls, li)
+	}
+	for i := 1; i < len(ls); i++ {
+		for j := i; j > 0 && ls[j].ordinal < ls[j-1].ordinal; j-- {
+			ls[j], ls[j-1] = ls[j-1], ls[j]
+		}
+	}
+	return ls
+}
